@@ -4,6 +4,7 @@
  * op language (one case):
  *   slot <k> <M|U> <actions...>     thread function of slot k (1..6): managed / manual, its actions
  *   main <actions...>               actions of thread 0 (not an aws thread)
+ *   once <id> [<c1> [<c2>]]        callback of once-flag id: registers at-exit callbacks c1, c2 on the calling thread
  *   fail <n> <errno>                the n-th (0-based) pthread_create of the run fails with errno
  *   tick <ns>                       every clock read advances virtual time by ns (spin-waits on the clock end)
  *   run choices <c...> | run sched <t...> | run seed <s> [spurious-permille]
@@ -11,7 +12,8 @@
  *   fails with EINVAL (library retries unpinned) | R<k> same, the retry fails too | a trailing 'n' on a launch
  *   (L3n, Q1n ...) gives the thread a name (options->name) | J<k> aws_thread_join | D<k> aws_thread_clean_up | A<i> register at-exit
  *   callback i | C print managed count | W aws_thread_join_all_managed | T<ns> set managed join timeout
- *   | Y yield (schedule point) | S<ns> aws_thread_current_sleep
+ *   | Y yield (schedule point) | S<ns> aws_thread_current_sleep | O<id> aws_thread_call_once on flag id
+ *   | I aws_common_library_init again (the library is initialised once before the first case)
  * output: P lines in execution order (see printf's below), then "P end ...", "W sched ...", "W ev ..." */
 #include "detsched.h"
 #include "h_common.h"
@@ -56,6 +58,11 @@ struct slot {
 };
 
 static struct slot s_slots[MAXSLOT];
+#define MAXONCE 8
+static aws_thread_once s_once_flag[MAXONCE];
+static int s_once_regs[MAXONCE][2];
+static int s_once_nregs[MAXONCE];
+static struct cbrec s_once_cbs[MAXONCE][2];
 static long s_fail_n = -1;
 static int s_fail_err;
 static uint64_t s_tick;
@@ -69,6 +76,11 @@ static void s_reset(void) {
     }
     s_fail_n = -1;
     s_tick = 0;
+    for (int i = 0; i < MAXONCE; ++i) {
+        aws_thread_once f = AWS_THREAD_ONCE_STATIC_INIT;
+        s_once_flag[i] = f;
+        s_once_nregs[i] = 0;
+    }
 }
 
 static int s_current_slot(void) {
@@ -87,6 +99,19 @@ static void s_atexit_cb(void *user_data) {
 }
 
 static void s_run_actions(struct slot *s);
+
+/* once-callback: registers the configured at-exit callbacks on whichever thread runs it */
+static void s_once_cb(void *user_data) {
+    int id = (int)(intptr_t)user_data;
+    int me = s_current_slot();
+    for (int i = 0; i < s_once_nregs[id]; ++i) {
+        struct cbrec *r = &s_once_cbs[id][i];
+        r->slot = me;
+        r->id = s_once_regs[id][i];
+        int rc = aws_thread_current_at_exit(s_atexit_cb, r);
+        printf("P reg s%d cb%d rc=%s\n", me, r->id, hc_err(rc));
+    }
+}
 
 static void s_thread_fn(void *arg) {
     struct slot *s = arg;
@@ -165,6 +190,13 @@ static void s_run_actions(struct slot *s) {
             case 'Y':
                 ds_yield(0);
                 break;
+            case 'O':
+                HC_CHECK(a->a >= 0 && a->a < MAXONCE);
+                aws_thread_call_once(&s_once_flag[a->a], s_once_cb, (void *)(intptr_t)a->a);
+                break;
+            case 'I':
+                aws_common_library_init(hc_allocator());
+                break;
             case 'S':
                 aws_thread_current_sleep((uint64_t)a->a);
                 break;
@@ -182,7 +214,7 @@ static void s_main_fn(void *arg) {
 static int s_parse_actions(struct slot *s, char **t, int from, int n) {
     s->nacts = 0;
     for (int i = from; i < n; ++i) {
-        if (s->nacts == MAXACT || !strchr("LPQRJDACWTYS", t[i][0]) || t[i][0] == 0) {
+        if (s->nacts == MAXACT || !strchr("LPQRJDACWTYSOI", t[i][0]) || t[i][0] == 0) {
             return 0;
         }
         struct act *a = &s->acts[s->nacts++];
@@ -206,6 +238,7 @@ int main(void) {
     while ((n = hc_next_line(t)) >= 0) {
         if (!strcmp(t[0], "case")) {
             s_reset();
+            s_baseline_blocks = hc_live_blocks(); /* a leak is charged to the case that caused it */
             hc_case_begin(t[1]);
         } else if (!strcmp(t[0], "slot") && n >= 3) {
             int k = atoi(t[1]);
@@ -218,6 +251,16 @@ int main(void) {
         } else if (!strcmp(t[0], "main")) {
             if (!s_parse_actions(&s_slots[0], t, 1, n)) {
                 printf("bad-op\n");
+            }
+        } else if (!strcmp(t[0], "once") && n >= 2 && n <= 4) {
+            int id = atoi(t[1]);
+            if (id < 0 || id >= MAXONCE) {
+                printf("bad-op\n");
+                continue;
+            }
+            s_once_nregs[id] = n - 2;
+            for (int i = 2; i < n; ++i) {
+                s_once_regs[id][i - 2] = atoi(t[i]);
             }
         } else if (!strcmp(t[0], "fail") && n == 3) {
             s_fail_n = atol(t[1]);
@@ -288,7 +331,15 @@ int main(void) {
             printf("\n");
             for (size_t i = 0; i < ds_event_count(); ++i) {
                 char buf[96];
-                ds_format_event(ds_event_at(i), buf, sizeof(buf));
+                const struct ds_event *e = ds_event_at(i);
+                if (e->obj_type == 'o') {
+                    /* once flags are named by their id in the op file, not by the scheduler's ordinal */
+                    const aws_thread_once *f = ds_object_addr('o', e->obj);
+                    long id = (f >= s_once_flag && f < s_once_flag + MAXONCE) ? (long)(f - s_once_flag) : -1;
+                    printf("W ev t%d %s f%ld %d\n", e->thread, ds_kind_name(e->kind), id, e->aux);
+                    continue;
+                }
+                ds_format_event(e, buf, sizeof(buf));
                 printf("W ev %s\n", buf);
             }
             fflush(stdout);
